@@ -35,6 +35,11 @@ import RedisGoModel.Props.C16WriterChain
       executable reader), `WalTornC.repair_torn_tail_partial` (`Repair` succeeds, truncates at the last whole record, and
       the repaired file reads back cleanly), `WalTornC.isTornB_iff`, `WalTornC.image_bytes`, and non-vacuity instances.
 
+    At the level of entries, hard state and snapshots (`ReadAll`'s dispatch, `Verify`, any metadata incl. nil, any
+    `SaveOk` history; after a crash under `GNoCollision`): Props/C16ReadAll.lean and Props/C16Crash.lean, which import
+    this file — `C16.readAll_written`, `readAll_entries` (+ the witness `readAll_entries_stale`), `readAll_hardstate`,
+    `readAll_snapshot_match`, `verify_agrees_written`, `crash_readAll_prefix_partial`.
+
     The unconditional statement is kept below as `C16_statement`; it is *not* claimed — `C16_statement_false` refutes
     it — and `C16_partial` collects what is proved towards it. -/
 namespace C16
